@@ -568,4 +568,68 @@ def closeSeq (guard : Bool) (sh : AShared) : AShared :=
   | .a2 => (aStep guard 0 (aStep guard 0 sh .a2).1 .a3).1
   | _ => sh
 
+/-! ## Client mapping handler: reportStats (periodic loop ‖ final report on Close)
+
+`BaseMappingHandler.reportStats` (internal/client/mapping/base_utils.go): claim the pending totals
+with `BytesSent.Swap(0)` and `BytesReceived.Swap(0)`, hand them to `client.TrackTraffic` if one is
+positive, add them back if the call failed.  It runs from `reportStatsLoop` (ticker) and from the
+handler's close cleanup (final report), concurrently.  `PVar.loadSub` is the rejected variant
+"Load, TrackTraffic, subtract afterwards". -/
+
+inductive PVar | swap | loadSub
+  deriving DecidableEq, Repr
+
+structure PShared where
+  pendS : Int              -- trafficStats.BytesSent / BytesReceived
+  pendR : Int
+  repS : Int               -- totals handed to successful TrackTraffic calls
+  repR : Int
+  calls : Nat
+  deriving DecidableEq, Repr
+
+inductive PPc | claimS | claimR | track | rollback | done
+  deriving DecidableEq, Repr
+
+structure PLocal where
+  pc : PPc
+  s : Int
+  r : Int
+  fail : Bool              -- this caller's TrackTraffic returns an error
+  deriving DecidableEq, Repr
+
+def pStep (v : PVar) (_tid : Nat) (sh : PShared) (l : PLocal) : PShared × PLocal :=
+  match l.pc with
+  | .claimS =>
+    (match v with | .swap => { sh with pendS := 0 } | .loadSub => sh, { l with pc := .claimR, s := sh.pendS })
+  | .claimR =>
+    (match v with | .swap => { sh with pendR := 0 } | .loadSub => sh,
+     { l with pc := if l.s > 0 ∨ sh.pendR > 0 then .track else .done, r := sh.pendR })
+  | .track =>
+    if l.fail then
+      ({ sh with calls := sh.calls + 1 }, { l with pc := match v with | .swap => .rollback | .loadSub => .done })
+    else
+      ({ sh with repS := sh.repS + l.s, repR := sh.repR + l.r, calls := sh.calls + 1 },
+       { l with pc := match v with | .swap => .done | .loadSub => .rollback })
+  | .rollback =>
+    (match v with
+     | .swap => { sh with pendS := sh.pendS + l.s, pendR := sh.pendR + l.r }
+     | .loadSub => { sh with pendS := sh.pendS - l.s, pendR := sh.pendR - l.r },
+     { l with pc := .done })
+  | .done => (sh, l)
+
+def pProg (v : PVar) : Prog PShared PLocal := ⟨pStep v⟩
+
+/-- `a`, `b`: totals accumulated by finished tunnels; one reporter per entry of `fails`. -/
+def pInit (a b : Nat) (fails : List Bool) : Cfg PShared PLocal :=
+  ⟨⟨a, b, 0, 0, 0⟩, fails.map fun f => ⟨.claimS, 0, 0, f⟩⟩
+
+def pWeight (l : PLocal) : Nat :=
+  match l.pc with
+  | .claimS => 4 | .claimR => 3 | .track => 2 | .rollback => 1 | .done => 0
+
+def pMu (c : Cfg PShared PLocal) : Nat := (c.ths.map pWeight).sum
+
+def pFinal (v : PVar) (a b : Nat) (fails : List Bool) (s : Schedule) : Cfg PShared PLocal :=
+  run (pProg v) (s ++ rounds fails.length (4 * fails.length)) (pInit a b fails)
+
 end Tunnox.C16
